@@ -34,9 +34,14 @@ var rexpSubst = []map[string]string{
 	{"p": "x{2}", "q": "x{2,}", "bad": "\\p{Foo}"},
 	{"p": "(?i)^a", "q": "^a", "bad": "(?P<n>"},
 	{"p": "^ab$", "q": "^ab", "bad": "*a"},
+	// invalid patterns whose syntax error names a fragment that is itself a valid pattern (p), and a near variant (q)
+	{"p": "\\d", "q": "^\\d", "bad": "[0-9a-\\d]+"},
+	{"p": "[:foo:]", "q": "[[:alpha:]]", "bad": "[[:foo:]]"},
+	{"p": "z-a", "q": "", "bad": "^[z-a]$"},
+	{"p": "", "q": "b", "bad": "ab\\"},
 }
 
-var rexpProbes = []string{"", "a", "A", "ab", "a ", "ba", "xx", "xxx", "bx", "abc", "Ab", " a"}
+var rexpProbes = []string{"", "a", "A", "ab", "a ", "ba", "xx", "xxx", "bx", "abc", "Ab", " a", "5", ":", "z-a", "o"}
 
 // fact: what Go's regexp package says, compiled directly from the pattern text (never through validate's cache)
 func rexpFact(pattern, s string) string {
@@ -248,7 +253,9 @@ func driveRexp(args []string) error {
 	rounds := fs.Int("rounds", 10, "rounds (cache reset between rounds)")
 	out := fs.String("out", "", "output directory")
 	fs.Parse(args)
-	pats := []string{"^a", "^A", "a", "a ", "ab", "x{2}", "x{2,}", "(?i)^a", "^ab$", "^ab", "b$", "é", "^.$", "(", "[a-", "a{2,1}", "\\p{Foo}", "*a", "(?P<n>"}
+	pats := []string{"^a", "^A", "a", "a ", "ab", "x{2}", "x{2,}", "(?i)^a", "^ab$", "^ab", "b$", "é", "^.$", "(", "[a-", "a{2,1}", "\\p{Foo}", "*a", "(?P<n>",
+		// invalid patterns next to the valid pattern their syntax error quotes
+		"[0-9a-\\d]+", "\\d", "[[:foo:]]", "[:foo:]", "^[z-a]$", "z-a", "ab\\", ""}
 	type rec struct {
 		ticket      int
 		g, pid      int
